@@ -376,9 +376,22 @@ def hintProcessing (pool : List WP) (hint : Option Nat) (key : Nat) : Bool :=
   | some h => match getW pool h with | some p => p.isProcessingKey key | none => false
   | none => false
 
+/-- sticky (F13, fixed): the hinted worker has the key in flight or still queued -/
+def hintPending (pool : List WP) (hint : Option Nat) (key : Nat) : Bool :=
+  match hint with
+  | some h => match getW pool h with | some p => p.hasPendingKey key | none => false
+  | none => false
+
 def hintAvailable (pool : List WP) (hint : Option Nat) : Bool :=
   match hint with
   | some h => match getW pool h with | some p => p.isAvailable | none => false
+  | none => false
+
+/-- round-robin: the hint is the slot the router itself picked last (the backlog path asks for a target
+and then routes with that target as the hint) -/
+def hintLast (pool : List WP) (last : Nat) (hint : Option Nat) : Bool :=
+  match hint with
+  | some h => hasW pool h && h == last
   | none => false
 
 /-- `CustomHashFunction::hash` of the harness: table-driven, depends on key and worker count;
@@ -412,9 +425,9 @@ def W.chooseTargetWorker (w : W) (j : Job) (hint : Option Nat) : Option Nat × W
       let (r, avail, inQ) := popAvail w.pool w.avail w.inQ
       (r, { w with avail := avail, inQ := inQ })
   | .sq =>
-    if hintProcessing w.pool hint j.key then (hint, w)
+    if hintPending w.pool hint j.key then (hint, w)
     else
-      match w.pool.find? (·.isProcessingKey j.key) with
+      match w.pool.find? (·.hasPendingKey j.key) with
       | some p => (some p.wid, w)
       | none =>
         if hintAvailable w.pool hint then (hint, w)
@@ -423,7 +436,7 @@ def W.chooseTargetWorker (w : W) (j : Job) (hint : Option Nat) : Option Nat × W
           (r, { w with avail := avail, inQ := inQ })
   | .rr =>
     if w.poolSize == 0 then (none, w)
-    else if hintAvailable w.pool hint then (hint, w)
+    else if hintAvailable w.pool hint || hintLast w.pool w.last hint then (hint, w)
     else
       let k := rrNext w.last w.poolSize
       (if hasW w.pool k then some k else none, { w with last := k })
@@ -977,5 +990,31 @@ def init (c : CaseCfg) : W :=
     nextCalc := CALCULATE_FREQUENCY, answers := [], lastWq := none }
   let w := w.growPool c.n   -- pre_start builds workers 0..n-1 exactly like grow_pool on an empty pool
   W.emit { w with poolSize := c.n } (.hook .started)
+
+/-! ## The histories excluded by finding F4 (stale completion) -/
+
+/-- keys of the `Finished` reports of slot `wid` that wait in the factory's mailbox -/
+def finKeys (wid : Nat) : List FMsg → List Nat
+  | [] => []
+  | .finished w k :: r => if w == wid then k :: finKeys wid r else finKeys wid r
+  | _ :: r => finKeys wid r
+
+/-- (F4) killing `aid` now would make a completion stale: it is alive, it is the worker of a pool
+slot, and a `Finished` report of that slot still waits in the factory's mailbox -/
+def W.staleKill (w : W) (aid : Nat) : Bool :=
+  match w.env.getActor aid with
+  | some a => a.alive && w.pool.any (fun p => p.actor == aid && !(finKeys p.wid w.inbox).isEmpty)
+  | none => false
+
+def Op.isStaleAt (w : W) : Op → Bool
+  | .kill aid => w.staleKill aid
+  | _ => false
+
+/-- no step of the run kills a worker incarnation whose completion report the factory has not
+processed yet — the exact, model-level form of the oracle's classifier `noStaleCompletion` -/
+def noStaleRun : W → List Step → Bool
+  | _, [] => true
+  | w, s :: rest =>
+    !(s.op.isStaleAt (W.advanceTo s.t0 (advanceFuel w s.t0) w)) && noStaleRun (w.stepOp s.op s.t0 s.tq s.te) rest
 
 end Factory
